@@ -236,8 +236,10 @@ class RecvRTL2SendCL( Component ):
     def up_send_cl():
       s.sent_msg = None
       if s.recv.en:
-        s.send( s.recv.msg )
-        s.sent_msg = s.recv.msg
+        # The signal's value object is updated in place every cycle: hand a
+        # copy to the CL side, which may keep it (e.g. in a queue)
+        s.sent_msg = clone_deepcopy( s.recv.msg )
+        s.send( s.sent_msg )
 
     s.add_constraints( U( up_recv_rtl_rdy ) < U( up_send_cl ) )
 
